@@ -247,6 +247,28 @@ func (c *Ctx) specCall(name string, e *ast.CallExpr) (Value, bool) {
 			panic(engineErr("%s(s): byte slice expected", name))
 		}
 		return Scalar(x.byteOrder32(name, v.Arr), types.Typ[types.Uint32]), true
+	case "aftercall":
+		// aftercall(f, e): the value of e right after the most recent call of the contracted function f on this path
+		// (at function entry when f was not called on this path)
+		id, ok := e.Args[0].(*ast.Ident)
+		if !ok || len(e.Args) != 2 {
+			panic(engineErr("aftercall(f, e): function name and expression expected"))
+		}
+		n := *c
+		if snap := c.st.after[id.Name]; snap != nil {
+			n.st = snap
+		} else if c.old != nil {
+			n.st = c.old
+		}
+		return n.eval(e.Args[1]), true
+	case "sha256of":
+		// sha256of(b): what crypto/sha256.Sum256 gives for b - the same uninterpreted function the code's calls of
+		// Sum256 are modelled with (Sum256 must be declared `extern ... pure` in the contract file)
+		v := c.eval(e.Args[0])
+		if v.Kind != KSlice {
+			panic(engineErr("sha256of(b): byte slice expected"))
+		}
+		return c.pureUF("crypto/sha256.Sum256", types.NewArray(types.Typ[types.Uint8], 32), Value{Kind: KNone}, []Value{v}), true
 	case "bytesof":
 		// bytesof(v): the bytes of an opaque array value (what v[:] gives in the code)
 		v := c.eval(e.Args[0])
